@@ -292,6 +292,17 @@ def c07_doc(kind: str, doc_repr: str) -> bool:
     return verdict(kind, ast.literal_eval(doc_repr))[0]
 
 
+def c07_strict_doc(kind: str, doc_repr: str) -> bool:
+    """Concrete-instance form, strict mode only: succeeds or raises a SigmaError."""
+    import ast
+
+    try:
+        loader(kind)(ast.literal_eval(doc_repr), False)
+    except SigmaError:
+        return True
+    return True
+
+
 OBLIGATIONS = (
     [Ob("c07_mutation", {"BASE": b}, 900) for b in range(5)]
     + [Ob("c07_scalar", {"FIELD": f, "LEN": 1 if f == 9 else (2 if f in (3, 4, 7, 10) else 3)}, 240) for f in range(len(SCALARS))]
